@@ -134,6 +134,15 @@ def _gen_rep(cfg, depth, budget):
     if depth > 0 and inner_budget >= 4 and r.random() < 0.12:
         # directly nested quantifiers: (?:x{a,}){c,}, (?:x{2}){3}, (x+)* ...
         inner = _gen_rep(cfg, 0, inner_budget)
+        if r.random() < 0.4 and inner_budget >= 8:
+            # the classic shape: an open-ended inner repeat with a minimum of two or more, under * / {0,} / ?
+            inner = dict(inner, min=r.choice((2, 2, 3)), max=None, form="{m,}")
+            if top == 0 or r.random() < 0.7:
+                mn, mx, form = 0, r.choice((None, None, 1)), r.choice(("*", "{m,}"))
+                if mx == 1:
+                    form = "?"
+                elif form == "{m,}":
+                    mx = None
         body = {"k": "group", "kind": r.choice(("noncap", "noncap", "cap")), "body": {"k": "seq", "items": [inner]}}
     else:
         body = _gen_atom(cfg, depth, inner_budget)
